@@ -819,6 +819,9 @@ func (k *checker) compileTable(specs []cfgSpec) {
 	r := k.r
 	dir := filepath.Join(runner.Scratch(), "compile-tok")
 	for _, s := range specs {
+		if !k.firstOf("compiled " + s.label()) {
+			continue
+		}
 		text := dsl(s, nextAddrs(), dir)
 		compiled, ok, why := compileOnly(text)
 		r.Add("configs_compiled", 1)
@@ -827,7 +830,11 @@ func (k *checker) compileTable(specs []cfgSpec) {
 		r.Distinct(fmt.Sprintf("compile|deploy=%s|global=%d|a=%d|b=%d|c=%v/%d|want_ok=%v", s.Deploy, len(s.Global), len(s.A), len(s.B), s.HasC, len(s.C), want))
 		switch {
 		case !want && ok:
-			r.Violation(fmt.Sprintf("compile:route-without-allowlist-accepted:global=%d,a=%d,b=%d,c=%v/%d", len(s.Global), len(s.A), len(s.B), s.HasC, len(s.C)),
+			key := fmt.Sprintf("compile:route-without-allowlist-accepted:global=%d,a=%d,b=%d,c=%v/%d", len(s.Global), len(s.A), len(s.B), s.HasC, len(s.C))
+			if !k.firstOf("violation " + key) {
+				continue
+			}
+			r.Violation(key,
 				"the compiler accepted a configuration that leaves a pull route without any token allowlist\n"+text, map[string]any{"cfg": s, "dsl": text}, nil)
 		case !want && !ok:
 			r.Add("configs_rejected_by_compiler", 1)
